@@ -577,6 +577,9 @@ func streamRound(w *W, idx int, prop string) {
 		snaps = 30
 		writers = 6
 	}
+	if prop == "C15" && idx%2 == 1 {
+		snaps = 15 // the stream must not depend on a snapshot being in progress
+	}
 	res := streamWorkload(w, idx, writers, per, snaps)
 	defer res.close()
 	w.Stat("stress_transactions", int64(res.txns))
